@@ -57,6 +57,12 @@ def _units():
     # calendar arithmetic with large month / day / year counts
     for g in range(3):
         us.append(Unit(f"C13_chrono_g{g}", "harness/C13_chrono.cpp", defs=[f"-DC13_GRP={g}", "-fconstexpr-ops-limit=1000000000"], flavours=_FL2, shards=_SH))
+    # integer utilities with the minimum / maximum of every signed type in each argument position, same-type and mixed-width
+    # pairs (gcd+lcm and cmp_*/in_range/saturate_cast over 35 (M, N) type pairs; midpoint/add_sat/div_sat/abs/div/idiv per type)
+    for g in range(3):
+        us.append(Unit(f"C13_imix_g{g}", "harness/C13_imix.cpp", defs=[f"-DC13_GRP={g}", "-fconstexpr-ops-limit=1000000000"], flavours=_FL2, shards=_SH))
+    # to_chars / from_chars / to_integer for short, long, long long text (limits of the remaining signed types)
+    us.append(Unit("C13_misc_g6", "harness/C13_misc.cpp", defs=["-DC13_GRP=6"], flavours=_FL2, shards=_SH))
     return us
 
 
@@ -75,7 +81,8 @@ P = dict(
                 "(+-0, NaN, denormals, +-inf), signed char, short (negative values), bool, char8_t, an enum and a struct compared by key only; "
                 "heterogeneous kernels: byte-sized element ranges x values of wider types whose low byte matches an element, and ranges of "
                 "different element types holding the same bytes; a (From, To) matrix of 44 duration pairs with narrow reps x 423 tick counts "
-                "(every 2^k +- 1) for duration_cast / time_point_cast / floor / ceil / round and calendar arithmetic with large counts). The harness then calls the same function at run "
+                "(every 2^k +- 1) for duration_cast / time_point_cast / floor / ceil / round and calendar arithmetic with large counts; gcd/lcm, cmp_*, in_range, saturate_cast over 35 mixed-width (M, N) type pairs and "
+                "midpoint/add_sat/div_sat/abs/div/idiv per type on the minimum and maximum of every signed type in each argument position). The harness then calls the same function at run "
                 "time on volatile-laundered copies of the same arguments at -O0, -O2 and (cmath always, the rest in the thorough tier) "
                 "-O1+ASan/UBSan and compares bit for bit (NaN == NaN unless the function is defined on the sign bit). A SFINAE probe "
                 "records arguments inside the documented domain for which constant evaluation fails. Held means: no difference and no "
